@@ -496,6 +496,21 @@ def case_C09(seed):
     rnd = _rnd(seed, 'C09')
     case = U.gen_case(rnd)
     U.quiet()
+    dbg = rnd.random() < 0.4        # 'any sequence of operations' includes running with the documented DEBUG level
+    lg = logging.getLogger("be.kuleuven.cs.dtai.mapmatching")
+    old_level = lg.level
+    h = logging.NullHandler()
+    if dbg:
+        lg.addHandler(h)
+        lg.setLevel(logging.DEBUG)
+    try:
+        return _case_C09(rnd, case, dbg)
+    finally:
+        lg.setLevel(old_level)
+        lg.removeHandler(h)
+
+
+def _case_C09(rnd, case, dbg):
     mp = U.make_map(case['graph'])
     mt = U.make_matcher(mp, case['cfg'])
     ops = gen_history(rnd, case, allow_cwd=True)
@@ -526,7 +541,7 @@ def case_C09(seed):
             break
         if ended:
             break
-    return {'nontrivial': nt, 'violations': viol, 'sample': {'case': U.case_repr(case), 'ops': ops}}
+    return {'nontrivial': nt, 'violations': viol, 'sample': {'case': U.case_repr(case), 'ops': ops, 'debug_level': dbg}}
 
 
 # ================================================================================================== C10 (in-process part)
